@@ -114,20 +114,46 @@ MergedSel(fs) == IF fs = <<>> THEN <<>> ELSE Head(fs).sel \o MergedSel(Tail(fs))
 \* -> [ok, v]; a missing variable inside a list becomes null (and is invalid at a non-null item position)
 \* wd = the variables whose definition has a default value: validation admits such a (nullable) variable at a non-null
 \* position, and the specification defers the null check to run time
-RECURSIVE CoerceLit(_, _, _, _)
-CoerceLit(lit, ty, vals, wd) ==
+\* S = the schema (input object types: S.types[n].inputFields = Seq([name, type, hasDefault, default]))
+RECURSIVE CoerceLit(_, _, _, _, _), CoerceObj(_, _, _, _, _, _)
+CoerceLit(S, lit, ty, vals, wd) ==
   IF lit.t = "var" THEN
      (IF lit.n \in DOMAIN vals THEN [ok |-> ~(IsNN(ty) /\ vals[lit.n] = Null), v |-> vals[lit.n], legit |-> lit.n \in wd]
       ELSE [ok |-> ~IsNN(ty), v |-> Null, legit |-> lit.n \in wd])
-  ELSE IF IsNN(ty) THEN LET r == CoerceLit(lit, ty[2], vals, wd) IN [ok |-> r.ok /\ r.v # Null, v |-> r.v, legit |-> r.legit /\ lit.t = "var"]
+  \* a failure inside the value keeps its own verdict; a null at the non-null position itself is deferred only for a variable
+  ELSE IF IsNN(ty) THEN LET r == CoerceLit(S, lit, ty[2], vals, wd) IN
+                        [ok |-> r.ok /\ r.v # Null, v |-> r.v, legit |-> IF ~r.ok THEN r.legit ELSE r.legit /\ lit.t = "var"]
   ELSE IF lit = Null THEN [ok |-> TRUE, v |-> Null, legit |-> TRUE]
   ELSE IF IsL(ty) THEN
        (IF lit.t = "l"
-        THEN LET rs == [k \in 1..Len(lit.v) |-> CoerceLit(lit.v[k], ty[2], vals, wd)] IN
+        THEN LET rs == [k \in 1..Len(lit.v) |-> CoerceLit(S, lit.v[k], ty[2], vals, wd)] IN
              [ok |-> \A k \in 1..Len(rs) : rs[k].ok, v |-> [t |-> "l", v |-> [k \in 1..Len(rs) |-> rs[k].v]],
               legit |-> \A k \in 1..Len(rs) : rs[k].ok \/ rs[k].legit]
-        ELSE LET r == CoerceLit(lit, ty[2], vals, wd) IN [ok |-> r.ok, v |-> [t |-> "l", v |-> <<r.v>>], legit |-> r.legit])
+        ELSE LET r == CoerceLit(S, lit, ty[2], vals, wd) IN [ok |-> r.ok, v |-> [t |-> "l", v |-> <<r.v>>], legit |-> r.legit])
+  ELSE IF Named(ty) \in DOMAIN S.types /\ S.types[Named(ty)].kind = "INPUT_OBJECT"
+       THEN (IF lit.t # "o" THEN [ok |-> FALSE, v |-> Null, legit |-> FALSE]
+             ELSE CoerceObj(S, lit, S.types[Named(ty)].inputFields, vals, wd, [ok |-> TRUE, kv |-> <<>>, legit |-> TRUE]))
   ELSE [ok |-> TRUE, v |-> lit, legit |-> TRUE]
+
+\* Input object literal (spec 3.10, "Input Coercion"): field by field in definition order. A field that is not given, or
+\* given as a variable without a runtime value, takes its default - or is an error if it is required, or is left out.
+LitField(lit, n) == lit.kv[CHOOSE k \in 1..Len(lit.kv) : lit.kv[k][1] = n][2]
+CoerceObj(S, lit, fdefs, vals, wd, acc) ==
+  IF fdefs = <<>> THEN [ok |-> acc.ok, v |-> [t |-> "o", kv |-> acc.kv], legit |-> acc.legit]
+  ELSE LET f == Head(fdefs)
+           given == \E k \in 1..Len(lit.kv) : lit.kv[k][1] = f.name
+           a == IF given THEN LitField(lit, f.name) ELSE Null
+           isVar == given /\ a.t = "var"
+           absent == ~given \/ (isVar /\ a.n \notin DOMAIN vals)
+       IN IF absent
+          THEN (IF f.hasDefault THEN CoerceObj(S, lit, Tail(fdefs), vals, wd, [acc EXCEPT !.kv = Append(@, <<f.name, CoerceLit(S, f.default, f.type, <<>>, {}).v>>)])
+                ELSE IF IsNN(f.type) THEN [ok |-> FALSE, v |-> Null, legit |-> acc.legit /\ isVar /\ a.n \in wd]
+                ELSE CoerceObj(S, lit, Tail(fdefs), vals, wd, acc))
+          ELSE LET r == CoerceLit(S, a, f.type, vals, wd) IN
+               IF ~r.ok
+               \* a (nullable) variable at a non-null field is admitted by validation only if the field or the variable has a default
+               THEN [ok |-> FALSE, v |-> Null, legit |-> acc.legit /\ ((isVar /\ (f.hasDefault \/ a.n \in wd)) \/ (~isVar /\ r.legit))]
+               ELSE CoerceObj(S, lit, Tail(fdefs), vals, wd, [acc EXCEPT !.kv = Append(@, <<f.name, r.v>>)])
 
 \* CoerceArgumentValues for the first field of a group:
 \* -> [ok, args: Seq(<<name, value>>) in definition order, legit]
@@ -135,21 +161,21 @@ CoerceLit(lit, ty, vals, wd) ==
 \* value is null / absent at a non-null argument (validation allows that position only because a default exists)
 ArgGiven(field, n) == \E k \in 1..Len(field.args) : field.args[k][1] = n
 ArgOf(field, n) == field.args[CHOOSE k \in 1..Len(field.args) : field.args[k][1] = n][2]
-RECURSIVE CoerceArgs(_, _, _, _, _)
-CoerceArgs(defs, field, vals, wd, acc) ==
+RECURSIVE CoerceArgs(_, _, _, _, _, _)
+CoerceArgs(S, defs, field, vals, wd, acc) ==
   IF defs = <<>> THEN [ok |-> TRUE, args |-> acc, legit |-> TRUE]
   ELSE LET d == Head(defs)
            given == ArgGiven(field, d.name)
            a == IF given THEN ArgOf(field, d.name) ELSE Null
            isVar == given /\ a.t = "var"
            hasValue == IF isVar THEN a.n \in DOMAIN vals ELSE given
-           cl == IF given /\ ~isVar THEN CoerceLit(a, d.type, vals, wd) ELSE [ok |-> TRUE, v |-> Null, legit |-> TRUE]
+           cl == IF given /\ ~isVar THEN CoerceLit(S, a, d.type, vals, wd) ELSE [ok |-> TRUE, v |-> Null, legit |-> TRUE]
            value == IF isVar THEN (IF hasValue THEN vals[a.n] ELSE Null) ELSE cl.v
-       IN IF ~hasValue /\ d.hasDefault THEN CoerceArgs(Tail(defs), field, vals, wd, Append(acc, <<d.name, d.default>>))
-          ELSE IF IsNN(d.type) /\ (~hasValue \/ value = Null) THEN [ok |-> FALSE, args |-> acc, legit |-> isVar /\ (d.hasDefault \/ a.n \in wd)]
+       IN IF ~hasValue /\ d.hasDefault THEN CoerceArgs(S, Tail(defs), field, vals, wd, Append(acc, <<d.name, CoerceLit(S, d.default, d.type, <<>>, {}).v>>))
           ELSE IF given /\ ~isVar /\ ~cl.ok THEN [ok |-> FALSE, args |-> acc, legit |-> cl.legit]
-          ELSE IF hasValue THEN CoerceArgs(Tail(defs), field, vals, wd, Append(acc, <<d.name, value>>))
-          ELSE CoerceArgs(Tail(defs), field, vals, wd, acc)
+          ELSE IF IsNN(d.type) /\ (~hasValue \/ value = Null) THEN [ok |-> FALSE, args |-> acc, legit |-> isVar /\ (d.hasDefault \/ a.n \in wd)]
+          ELSE IF hasValue THEN CoerceArgs(S, Tail(defs), field, vals, wd, Append(acc, <<d.name, value>>))
+          ELSE CoerceArgs(S, Tail(defs), field, vals, wd, acc)
 
 \* ---- execution ------------------------------------------------------------
 \* results: [raised, v, at, errs, calls]
@@ -167,7 +193,7 @@ ExecField(R, objType, obj, fs, path, errs, calls) ==
   IF name = "__typename" THEN Val([t |-> "s", v |-> objType], errs, calls)
   ELSE LET fd == R.schema.types[objType].fields[name]
            ty == fd.type
-           ca == CoerceArgs(fd.args, fs[1], R.vals, R.wd, <<>>)
+           ca == CoerceArgs(R.schema, fd.args, fs[1], R.vals, R.wd, <<>>)
        IN IF ~ca.ok
           THEN LET calls1 == Append(calls, [path |-> path, args |-> <<>>, failed |-> TRUE, legit |-> ca.legit]) IN   \* no resolver call: a marker instead
                (IF IsNN(ty) THEN Raise(path, errs, calls1) ELSE Val(Null, Append(errs, path), calls1))    \* argument coercion failed: field error
